@@ -23,6 +23,9 @@ mod c11;
 mod c12;
 
 use common::{Ctx, Tier};
+
+#[global_allocator]
+static ALLOC: common::alloc_count::Counting = common::alloc_count::Counting;
 use serde_json::json;
 
 fn arg(args: &[String], name: &str) -> Option<String> {
@@ -51,6 +54,7 @@ fn main() {
     let mut ctx = Ctx::new(&prop, tier, seed, log.as_deref());
     ctx.only_scenario = arg(&args, "--only-scenario").and_then(|s| s.parse().ok());
     ctx.set_extra("threads", json!(threads));
+    ctx.flush_calls = prop == "C08";
 
     // C07 sub-process mode: emit the randomness-derived values of a fixed workload
     if prop == "C07" && args.iter().any(|a| a == "--emit") {
